@@ -9,6 +9,7 @@ import CalVerif.Spec.XmlText
       sst <ev>…                           read_shared_strings                       → `ok <n> <hex> <hex> …`
       cell <t|-> <hex,hex,…|-> <ev>…      children of one <c t=…> (strings = table) → `ok str:<hex>` | `ok shared:<hex>` | `ok empty` | `ok other`
       fmla <ev>…                          formula text of one <c> (next_formula)    → `ok str:<hex> rest=<n>`
+      odsval <start ev of the cell> <ev>…  get_datatype: attribute loop + text path  → `ok str:<hex>` | `ok other`
       odscell <ev>…                       get_datatype text path                    → `ok <hex> rest=<n>`
       unescape <hex utf-8>                quick-xml escape::unescape                → `ok <hex>` | `err:<class>`
       cdatasplit <hex>                    the writer's CDATA cut                    → `ok <hex> <hex> …`
@@ -101,6 +102,11 @@ def handleOne (ws : List String) : String :=
     match parseEvs evs with
     | some es => showRes (fun (s, rest) => "str:" ++ hx s ++ s!" rest={rest.length}") (formulaText es)
     | none => "bad-request"
+  | "odsval" :: evs =>
+    match parseEvs evs with
+    | some (.start _ attrs :: es) =>
+      showRes (fun v => match v with | some s => "str:" ++ hx s | none => "other") (odsCellValue attrs es)
+    | _ => "bad-request"
   | "odscell" :: evs =>
     match parseEvs evs with
     | some es => showRes (fun (s, rest) => hx s ++ s!" rest={rest.length}") (odsCellText es)
